@@ -1,73 +1,11 @@
-(** Boolean classifiers of the known C11 findings (one per `known:` line of
-    /verif/known-findings.txt).  The C11 theorems exclude exactly these classes; the
-    run-time check evaluates the same functions on every generated case. *)
+(** No known finding of C11 is left: c11-casefold-index, c11-cfg-0007-defaults and
+    c11-cfg-array were repaired in /repo (91d5aeb, dec6d3f, 8478633) like the four classes
+    before them, and the theorems of Props/C11.v carry no classifier hypothesis.
+
+    [known_c11] is constantly false.  It is kept ONLY because Props/C12.v and
+    Proofs/FootprintLayout.v (property C12) still state C12_hashed_layouts_safe with the
+    hypothesis [known_c11 c id = false]; once that hypothesis is dropped there this file
+    can be deleted.  ([cfg_determined], which is not a finding, moved to LayoutSpec.v.) *)
 From Rocfl Require Import Base.Bytes Model.Layout.
-Open Scope N_scope.
 
-(** ** classes of configurations (StorageLayout::new) *)
-
-Definition is_absent (v : jv) : bool := match v with JAbsent => true | _ => false end.
-
-(** (c11-cfg-bounds and c11-cfg-short-root were known findings until the fixes d1aca14
-    and a91c61b in /repo; the configuration theorems now cover those configurations.) *)
-
-(** c11-cfg-0007-defaults: 0007 gives every parameter a default (delimiter ":"), but
-    NTupleOmitPrefixLayoutConfig.delimiter has no serde default (layout.rs:189) and
-    NTupleOmitPrefixLayoutExtension::new refuses a missing config.json (581-585). *)
-Definition c11_cfg_0007_defaults (e : ext) (r : raw) : bool :=
-  match e, r with
-  | E0007, RawNone => true
-  | E0007, RawObj o => is_absent (r_delim o)
-  | _, _ => false
-  end.
-
-(** c11-cfg-array: a config.json that is a JSON array is deserialised positionally by
-    serde's derived visitor and accepted; the documents define the configuration as a
-    JSON object with named parameters. *)
-Definition c11_cfg_array (r : raw) : bool := match r with RawSeq _ => true | _ => false end.
-
-Definition known_c11_cfg (e : ext) (r : raw) : bool :=
-  c11_cfg_0007_defaults e r || c11_cfg_array r.
-
-(** NOT a finding but a hole in the documents: none of the five says whether the key
-    extensionName may be omitted.  rocfl requires it for 0006/0007 (serde "missing
-    field") and defaults it for 0002-0004.  The configuration theorem is stated for
-    the configurations the documents decide. *)
-Definition cfg_determined (e : ext) (r : raw) : bool :=
-  match e, r with
-  | (E0006 | E0007), RawObj o => negb (is_absent (r_ext o))
-  | _, _ => true
-  end.
-
-(** ** classes of (configuration, id) pairs (map_object_id) *)
-
-(** (c11-0003-zero-tuples and c11-0007-control-chars were known findings until the fixes
-    e1de1bb and 970818d in /repo; the mapping theorems now cover those ids.) *)
-
-(** The case mapping is "regular" for a delimiter and an id when the byte arithmetic of
-    layout.rs:550-570 / 614-632 is sound:
-    - delimiter with case: str::to_lowercase of id and delimiter is the concatenation of
-      the per-character lower-case forms (false for a final capital sigma), every
-      lower-case form is ONE scalar value, and for the id it has the SAME UTF-8 length
-      as the original character (false for U+212A KELVIN SIGN, U+0130, U+1E9E ...);
-    - delimiter without case (to_lowercase = to_uppercase): comparing bytes is the same
-      as comparing lower-case forms. *)
-Definition lows (s : ustr) : bytes := List.concat (List.map u_low (us_chars s)).
-Definition case_regular (d id : ustr) : bool :=
-  if case_matters d then
-    bytes_eqb (us_lower id) (lows id) && bytes_eqb (us_lower d) (lows d) &&
-    forallb (fun u => wf_char (u_low u) && (blen (u_low u) =? blen (u_orig u))) (us_chars id) &&
-    forallb (fun u => wf_char (u_low u)) (us_chars d)
-  else
-    forallb (fun u => forallb (fun v =>
-      Bool.eqb (bytes_eqb (u_low u) (u_low v)) (bytes_eqb (u_orig u) (u_orig v))) (us_chars d)) (us_chars id).
-
-(** c11-casefold-index: 0006/0007 search the delimiter in object_id.to_lowercase() and
-    apply the byte index to the original id (layout.rs:557-566, 620-629) *)
-Definition c11_casefold (c : cfg) (id : ustr) : bool :=
-  match c_ext c with
-  | E0006 | E0007 => negb (case_regular (c_delim c) id)
-  | _ => false
-  end.
-
-Definition known_c11 (c : cfg) (id : ustr) : bool := c11_casefold c id.
+Definition known_c11 (c : cfg) (id : ustr) : bool := false.
